@@ -29,7 +29,16 @@ def run_batch(args) -> dict:
     uniq: dict[str, dict] = {}
     stats = {"runs": 0, "cases": 0, "injected": 0, "abandoned": 0, "errors": [], "points": 0, "switches": 0}
     for it in items:
-        res = sched.in_child(lambda it=it: sched.run_threads(it["programs"], it.get("runs", []), pool))
+        def run_item(it=it):
+            warm: list = []
+            if it.get("warmup"):        # sequential calls before the threads start (warm caches)
+                sched.run_program(0, it["warmup"], pool, lambda: None, warm)
+                for c in warm:
+                    c["id"] = "warm_" + c["id"]
+            res = sched.run_threads(it["programs"], it.get("runs", []), pool)
+            res["cases"] = warm + res["cases"]
+            return res
+        res = sched.in_child(run_item)
         stats["runs"] += 1
         if "child_error" in res:
             stats["errors"].append({"item": it["id"], "error": res["child_error"]})
@@ -122,9 +131,46 @@ def history_to_item(hid: str, hist: list[dict], nops: list, concurrent: bool) ->
     return {"id": hid, "programs": programs, "runs": runs}
 
 
-def make_items(chk: Check, nops: list, npool: int, thorough: bool, hists: list) -> list[dict]:
+def make_items(chk: Check, nops: list, npool: int, thorough: bool, hists: list, npoints: list,
+               mini=None) -> list[dict]:
     rng = random.Random(chk.seed + 5)
     items = []
+    if mini is not None:
+        sel = sorted(ci for ci in mini if ci < npool)
+        for ci in sel:
+            warm = [("w", ci, 0, 0), ("w", ci, 1, 0), ("r", ci, 0, 0), ("r", ci, 1, 0)]
+            for ki, kind in enumerate("wr"):
+                P = npoints[ci][ki]
+                for k in sorted({1 + (j * P) // 24 for j in range(24)}):
+                    items.append({"id": f"hot_{kind}{ci}_{k}", "warmup": warm,
+                                  "programs": [[(kind, ci, 0, 0)], [(kind, ci, 1, 0)]], "runs": [k, 10**9]})
+            for vi in (0, 1):
+                for kind, n in (("w", nops[ci][vi][0]), ("r", nops[ci][vi][1])):
+                    ks = list(range(1, n + 1))
+                    if len(ks) > 16:
+                        ks = sorted(set(ks[:5] + ks[-5:] + rng.sample(ks, 6)))
+                    for k in ks:
+                        items.append({"id": f"fail_{kind}{ci}_{vi}_{k}",
+                                      "programs": [[(kind, ci, vi, k), (kind, ci, 1 - vi, 0), (kind, ci, vi, 0),
+                                                    ("w" if kind == "r" else "r", ci, vi, 0)]]})
+                for j in range(3):
+                    items.append({"id": f"bad{ci}_{vi}_{j}",
+                                  "programs": [[("wbad", ci, vi, j), ("w", ci, 1 - vi, 0), ("w", ci, vi, 0),
+                                                ("r", ci, vi, 0)]]})
+            items.append({"id": f"eq{ci}a", "programs": [[("w", ci, 0, 0), ("w", ci, 1, 0), ("w", ci, 0, 0)]]})
+        return items
+    # (f) warm caches, two threads in the SAME cached reader / writer with different values: thread 0 is
+    # preempted after k switch points of its call, thread 1 runs its whole call, thread 0 resumes
+    cap = 10**6 if thorough else 70
+    for ci in range(npool):
+        warm = [("w", ci, 0, 0), ("w", ci, 1, 0), ("r", ci, 0, 0), ("r", ci, 1, 0)]
+        for ki, kind in enumerate("wr"):
+            P = npoints[ci][ki]
+            ks = list(range(1, P + 1)) if P <= cap else sorted({1 + (j * P) // cap for j in range(cap)})
+            for k in ks:
+                other = kind if k % 5 else ("r" if kind == "w" else "w")
+                items.append({"id": f"hot_{kind}{ci}_{k}", "warmup": warm,
+                              "programs": [[(kind, ci, 0, 0)], [(other, ci, 1, 0)]], "runs": [k, 10**9]})
     # (a) every failure position of every call once, followed by clean calls of the same codec
     cap = 400 if thorough else 24
     for ci in range(npool):
@@ -212,7 +258,8 @@ def check_C19(chk: Check, replay) -> None:
     chk.cov["rule"] = ("a case is one run (a sequential history or a two-thread schedule) from cold caches: "
                        "failure at every stream operation of every call followed by clean calls, random "
                        "histories with cache clears, Registry-model behaviours replayed sequentially and with "
-                       "their interleaving, random and swept line-level preemption; distinct = distinct runs; "
+                       "their interleaving, random and swept line-level preemption from cold caches, and a swept "
+                       "preemption of two warm calls of the same cached reader/writer; distinct = distinct runs; "
                        "every completed clean call is judged against F(class, value) by CodecTrace")
     thorough = chk.tier == "thorough"
     # ---- model checking: the design, the two seeded designs (must fail), liveness
@@ -239,9 +286,22 @@ def check_C19(chk: Check, replay) -> None:
         raise Machinery(f"MC_Registry_live failed:\n{res['out'][-2000:]}")
     chk.add_tlc("Registry/MC_Registry_live.cfg", res)
     hists = sim_histories(chk, 400 if thorough else 60)
+    history_core(chk, thorough, hists, None)
+
+
+def history_section(chk: Check) -> None:
+    """A compact version of the C19 runs for the codec properties (C01, C02, C03, C05, C07): what a
+    reader or writer produces for (class, value) must be the specified result in every context, so a few
+    classes with tagged fields are run after failed calls at every stream operation, after value-caused
+    failures, and with two threads inside the same warm reader / writer preempted at swept points.  Every
+    completed clean call is validated by CodecTrace against the definitional codec."""
+    history_core(chk, False, [], {0, 6, 8, 9, 16, 10 + chk.seed % 3})
+
+
+def history_core(chk: Check, thorough: bool, hists: list, mini) -> None:
     # ---- the pool and its specified encodings
-    pool, enc_in = sched.build_pool_inputs(chk.seed + 1, 30 if thorough else 6)
-    p = os.path.join(chk.scratch, "pool.json")
+    pool, enc_in = sched.build_pool_inputs(chk.seed + 1, 30 if thorough else (0 if mini else 6))
+    p = os.path.join(chk.scratch, "hpool.json" if mini else "pool.json")
     codec_driver.write_shard(p, enc_in["schemas"], enc_in["cases"])
     encoded = encode_with_spec(chk, [p])[p]
     spec = {"pool": pool, "encoded": encoded}
@@ -249,7 +309,10 @@ def check_C19(chk: Check, replay) -> None:
     nops = sched.count_ops(mpool)
     if isinstance(nops, dict):
         raise Machinery(f"dry run failed: {nops}")
-    items = make_items(chk, nops, len(pool), thorough, hists)
+    npoints = sched.count_points(mpool)
+    if isinstance(npoints, dict):
+        raise Machinery(f"dry run (switch points) failed: {npoints}")
+    items = make_items(chk, nops, len(pool), thorough, hists, npoints, mini)
     random.Random(chk.seed).shuffle(items)
     K = 16
     batches = [(spec, items[i::K]) for i in range(K)]
@@ -276,23 +339,25 @@ def check_C19(chk: Check, replay) -> None:
         part = cases[i::K]
         if not part:
             continue
-        sp = os.path.join(chk.scratch, f"reg{i}.json")
+        sp = os.path.join(chk.scratch, f"{'hreg' if mini else 'reg'}{i}.json")
         codec_driver.write_shard(sp, enc_in["schemas"], part)
         shards.append(sp)
     res = tlc.validate_shards("CodecTrace", shards, jobs=16)
     verdicts = {v["id"]: v["fails"] for v in res["verdicts"]}
     if not verdicts.get("canary_scratch"):
         raise Machinery("canary was not rejected by CodecTrace")
-    chk.add_tlc("CodecTrace(w1/r1)", res, traces=stats["cases"])
-    chk.count(stats["runs"])
-    chk.cov["distinct_nontrivial"] = stats["runs"]
+    chk.add_tlc("CodecTrace(w1/r1)" + ("/contexts" if mini else ""), res, traces=stats["cases"])
+    if not mini:
+        chk.count(stats["runs"])
+        chk.cov["distinct_nontrivial"] = stats["runs"]
     chk.notes.append(f"{stats['runs']} runs ({len(items)} planned) from cold caches: {stats['cases']} completed clean "
                      f"calls ({len(cases) - 1} distinct observations), {stats['injected']} injected failures, "
                      f"{stats['switches']} thread switches at {stats['points']} switch points, "
                      f"{stats['abandoned']} schedules abandoned, {len(stats['errors'])} runs without result; "
                      f"{len(hists)} Registry-model behaviours replayed; canary rejected")
-    chk.sample({"run": items[0]})
-    chk.sample({"schedule": next(i for i in items if i["id"].startswith("sched"))})
+    if not mini:
+        chk.sample({"run": items[0]})
+        chk.sample({"schedule": next(i for i in items if i["id"].startswith("sched"))})
     for c in cases:
         if c["id"] == "canary_scratch":
             continue
